@@ -1,7 +1,7 @@
 import sys, os
 sys.path.insert(0, os.path.dirname(os.path.abspath(__file__)))
 import staticprop
-staticprop.main("C14", "Prop_C14", ["C14_table_wf", "C14_key_linear", "C14_key_linear_general", "C14_holds_stay_attached", "C14_refuted_take"],
+staticprop.main("C14", "Prop_C14", ["C14_table_wf", "C14_key_linear", "C14_key_linear_general", "C14_holds_stay_attached", "C14_refuted_take", "C14_key_never_sent"],
                 ["C14"], "one minimal offending program per escape route (Clone / Copy / Send / Default / forging of the key, Keyable "
                 "forgery, &ThreadKey, guard API with a borrowed key, key reuse while a guard lives, nested scoped calls, private "
                 "fields, Clone / Send of key-holding guards, moving holds out of a collection guard), each with a compiling twin; "
